@@ -588,20 +588,24 @@ class VariantBase(productmd.common.MetadataBase):
                 raise ValueError("Variant ID doesn't match: '%s' vs '%s'" % (variant.id, variant_id))
 
     def add(self, variant, variant_id=None):
-        if hasattr(self, "uid"):
-            # detect Variant; we don't want to set parent for VariantBase or Variants
-            variant.parent = self
-
-        variant.validate()
-        variant_id = variant_id or variant.id
-        if hasattr(self, "parent"):
-            parents = self._get_all_parents()
-            if variant in parents:
-                parent_uids = sorted([i.uid for i in parents])
-                raise ValueError("Dependency cycle detected; variant %s; parents: %s" % (variant.uid, parent_uids))
-        new_variant = self.variants.setdefault(variant_id, variant)
-        if new_variant != variant:
-            raise ValueError("Variant ID already exists: %s" % variant.id)
+        old_parent = variant.parent
+        # detect Variant; a variant filed in VariantBase or Variants has no parent
+        variant.parent = self if hasattr(self, "uid") else None
+        try:
+            variant.validate()
+            variant_id = variant_id or variant.id
+            if hasattr(self, "parent"):
+                parents = self._get_all_parents()
+                if variant in parents:
+                    parent_uids = sorted([i.uid for i in parents])
+                    raise ValueError("Dependency cycle detected; variant %s; parents: %s" % (variant.uid, parent_uids))
+            new_variant = self.variants.setdefault(variant_id, variant)
+            if new_variant != variant:
+                raise ValueError("Variant ID already exists: %s" % variant.id)
+        except Exception:
+            # a refused add must not leave the variant pointing at this container
+            variant.parent = old_parent
+            raise
 
     def _get_all_parents(self):
         result = [self]
